@@ -13,7 +13,7 @@
    Fubini for continuous integrands proved, C02_fubini_continuous), and under four named integrability hypotheses for
    non-continuous densities (C02_invariance_interval_partial).  NOT proved: unbounded supports (improper integrals), R^n. *)
 From CV Require Import Base.Tac Base.Cmp Base.Ext Model.C02_MH
-  Model.C02_Tune Proofs.C02_MH Proofs.C02_Balance Proofs.C02_Vec Proofs.C02_Real Proofs.C02_Witness Proofs.C02_Tune Proofs.C02_Bilinear Proofs.C02_Measure Proofs.C02_Countable Proofs.C02_Continuous Proofs.C02_Fubini Proofs.C02_Link Proofs.C02_Steps.
+  Model.C02_Tune Proofs.C02_MH Proofs.C02_Balance Proofs.C02_Vec Proofs.C02_Real Proofs.C02_Witness Proofs.C02_Tune Proofs.C02_Bilinear Proofs.C02_Measure Proofs.C02_Countable Proofs.C02_Continuous Proofs.C02_Fubini Proofs.C02_Link Proofs.C02_Steps Proofs.C02_Reversible.
 From Coq Require Import QArith Qreals Reals.
 From Coquelicot Require Import Hierarchy Series RInt Continuity Lim_seq.
 Close Scope R_scope.   (* Coquelicot opens it globally; this file writes %R / %Q explicitly *)
@@ -400,6 +400,21 @@ Proof.
 Qed.
 Print Assumptions C02_invariance_interval_continuous.
 
+(* REVERSIBILITY on a compact interval, rejection atom included, as self-adjointness in L2(pi) (stronger than invariance; with g = 1 it IS
+   invariance because K 1 = 1): int_a^b pi f (K g) = int_a^b pi g (K f) for all continuous f, g, continuous pi >= 0 (zeros allowed) and jointly
+   continuous q >= 0.  The hypotheses are those of the example below plus a second continuous test function. *)
+Theorem C02_reversible_interval_continuous : forall (a b : R) (pi : R -> R) (q : R -> R -> R),
+  (forall x, 0 <= pi x)%R -> (forall x y, 0 <= q x y)%R -> (forall x, continuity_pt pi x) -> (forall x y, continuity_2d_pt q x y) ->
+  (forall f g : R -> R, (forall x, continuity_pt f x) -> (forall x, continuity_pt g x) ->
+     RInt (fun x => (pi x * f x * Kf a b pi q g x)%R) a b = RInt (fun x => (pi x * g x * Kf a b pi q f x)%R) a b) /\
+  (forall x, Kf a b pi q (fun _ => 1%R) x = 1%R).
+Proof.
+  intros a b pi q Hp Hq Cp Cq. split.
+  - intros f g Cf Cg. exact (reversible_RInt_continuous a b pi q Hp Hq Cp Cq f g Cf Cg).
+  - exact (Kf_one a b pi q).
+Qed.
+Print Assumptions C02_reversible_interval_continuous.
+
 Example C02_interval_continuous_example :
   let pi := fun x : R => (Rmin x (1 - x) + Rabs (Rmin x (1 - x)))%R in let q := fun _ _ : R => 1%R in let f := fun x : R => x in
   (forall x, 0 <= pi x)%R /\ (forall x y, 0 <= q x y)%R /\ (forall x, continuity_pt pi x) /\ (forall x y, continuity_2d_pt q x y) /\
@@ -515,6 +530,13 @@ Proof.
 Qed.
 Print Assumptions C02_tune_runs_ordered.
 
+(* closed form of a run of adaptations: the parameter after the j-th step is the starting value times the exponential of the accumulated
+   Robbins-Monro drift sum_{i <= j} (hat_i - star)/sqrt(k+i) -- a purely multiplicative recursion, hence positive for every history *)
+Theorem C02_tune_closed_form : forall (windows : list (Z * Z)) (lam : R) (k : Z) (star : R), (0 < lam)%R ->
+  tune_temps lam k star windows = map (fun d => (lam * exp d)%R) (drifts k star windows 0%R).
+Proof. exact tune_temps_closed. Qed.
+Print Assumptions C02_tune_closed_form.
+
 Theorem C02_tune_window_vanishing : forall (lam : R) (k a n : Z) (star : R),
   (0 < lam)%R -> (1 <= k)%Z -> (0 <= a <= n)%Z -> (0 < n)%Z ->
   (star = star_mh \/ star = star_pcn \/ exists d, (1 <= d)%Z /\ star = star_cw d) ->
@@ -542,6 +564,14 @@ Theorem C02_tune_windows_coincide : forall (T i : nat) (acc : list Z), length ac
   win_last T acc = win_slice T i acc /\ length (win_last T acc) = T.
 Proof. exact windows_coincide. Qed.
 Print Assumptions C02_tune_windows_coincide.
+
+(* ... and that length hypothesis is a fact about warmup()'s loop: in iteration idx tune(T, idx / T) is called when (idx+1) mod T = 0, the
+   history then holds the initial 1 and the idx flags of the completed iterations *)
+Theorem C02_warmup_windows_coincide : forall (T idx : nat) (acc : list Z),
+  (1 <= T)%nat -> ((idx + 1) mod T = 0)%nat -> length acc = (1 + idx)%nat ->
+  win_last T acc = win_slice T (idx / T) acc /\ length (win_last T acc) = T.
+Proof. exact warmup_windows_coincide. Qed.
+Print Assumptions C02_warmup_windows_coincide.
 
 Theorem C02_tune_flags_monotone : forall (lam : R) (i : nat) (star : R) (w1 w2 : list Z), Forall2 Z.le w1 w2 -> w1 <> nil ->
   (tune_temp lam (Z.of_nat i + 1) (win_rate w1) star <= tune_temp lam (Z.of_nat i + 1) (win_rate w2) star)%R /\
